@@ -35,7 +35,7 @@ struct Spec {
     layered: u8,
 }
 
-static ENV_LOCK: std::sync::Mutex<()> = std::sync::Mutex::new(());
+pub(crate) static ENV_LOCK: std::sync::Mutex<()> = std::sync::Mutex::new(());
 
 /// The operator's way: a config file and an auth-secret file, read by `Config::read()`.
 fn config_from_file(spec: &Spec, addr: SocketAddr) -> Result<Config, String> {
